@@ -22,7 +22,9 @@ var cssParser = parse.Func(func(pi *parse.Input) (r CSSTemplate, ok bool, err er
 	r.Name = exp.Name
 	r.Expression = exp.Expression
 
+	vf := verifEnter()
 	for {
+		verifIter(pi, "cssParser", vf)
 		var cssProperty CSSProperty
 
 		// Try for an expression CSS declaration.
